@@ -402,7 +402,59 @@ def gen_attack(rng, method, kind, decoy, n, force_decl=None):
     return dict(before=before, doctype=dt, after=after, root=r, rootkind=rk, kind=kind)
 
 
+def lol_attack(method, d, k, n):
+    """nested expansion of depth d and fan-out k with a fixed shape (amplifiers of the resource monitors)"""
+    items = [("entity", ("internal", "l0", lit("lol")))]
+    for i in range(1, d + 1):
+        items.append(("entity", ("internal", "l%d" % i, (False, [("r", "&l%d;" % (i - 1), k)]))))
+    return dict(before=[("pi", "xml", 'version="1.0"')], doctype=dict(name="x", ext=None, subset=items), after=[],
+                root=root_for(method, "&l%d;" % d, "", tag_hint="a%d" % n), rootkind="valid", kind="lol-%d-%d" % (d, k))
+
+
 HOSTILE_KINDS = ["ext_general", "ext_general", "ext_public", "ext_param", "oob", "lol", "lol", "quadratic", "unparsed",
                  "internal", "pinternal", "subset_mix", "entity_malformed_root"]
 ACCEPTED_KINDS = ["bare_doctype", "extid_only", "subset_noent", "doctype_undef", "doctype_malformed", "extid_undef_attr"]
 CONTROL_KINDS = ["valid", "valid", "malformed", "undef"]
+
+
+# ---------------------------------------------------------------------------------------------- charset polyglots
+# ASCII bytes that are a harmless document when read as utf-8 / latin-1 (the DOCTYPE sits inside a comment, the entity
+# reference is plain text) and a hostile one when read with a codec that rewrites ASCII escapes (utf-7, unicode_escape,
+# raw_unicode_escape): the escapes hide the end of the first comment, the start of the second one and the '&'.
+import base64 as _b64
+
+
+def _u7(t):
+    return "+" + _b64.b64encode(t.encode("utf-16-be")).decode().rstrip("=") + "-"
+
+
+TRANSFORMS = {
+    "utf-7": _u7,
+    "unicode_escape": lambda t: "".join("\\x%02x" % ord(c) for c in t),
+    "raw_unicode_escape": lambda t: "".join("\\u%04x" % ord(c) for c in t),
+}
+
+
+def polyglot(method, codec, n, depth=2, fan=3):
+    """(term of the grammar = the hostile reading, ASCII bytes, harmless reading)"""
+    esc = TRANSFORMS[codec]
+    items = [("entity", ("internal", "a", lit("XPND%d" % n)))]
+    prev = "a"
+    for i in range(depth):
+        name = "b%d" % i
+        items.append(("entity", ("internal", name, (False, [("r", "&%s;" % prev, fan)]))))
+        prev = name
+    a = dict(before=[("pi", "xml", 'version="1.0"'), ("space", "\n"), ("comment", " "), ("space", " ")],
+             doctype=dict(name="r", ext=None, subset=items),
+             after=[("space", " "), ("comment", " "), ("space", "\n")],
+             root=root_for(method, "&%s;" % prev, "", tag_hint="p%d" % n), rootkind="valid", kind="polyglot-" + codec)
+    hostile = render(a)
+    # hide: the "-->" of the first comment, the "<!--" of the second, the '&' of the root element
+    i = hostile.index("-->")
+    j = hostile.rindex("<!--")
+    k = hostile.index("&", hostile.index("]>"))
+    assert i < j < k
+    raw = (hostile[:i] + esc("-->") + hostile[i + 3:j] + esc("<!--") + hostile[j + 4:k] + esc("&") + hostile[k + 1:])
+    data = raw.encode("ascii")
+    assert data.decode(codec) == hostile, (codec, data.decode(codec)[:200])
+    return a, data, raw
